@@ -24,7 +24,7 @@ from WallGo.fields import FieldPoint, Fields
 
 from symx import core, npx
 from symx.core import AND, OR, NOT, Cond, Sym, eq, ge, gt, le, lt, ne
-from symx.harness import HarnessDef
+from symx.harness import HarnessDef, bare
 from props.hydrokit import ScipyStubs
 
 EXPLANATION = __doc__
@@ -42,14 +42,18 @@ class StepBound(core.PathAbort):
     pass
 
 
-def make_free_energy(h, nf, paranoid, maxsteps=2):
+def make_free_energy(h, nf, paranoid, maxsteps=2, obj=None):
     h.patch(FE, float=npx.symfloat, np=npx.NP())
-    fe = FE.FreeEnergy.__new__(FE.FreeEnergy)
     T0 = h.real("T0", 1.0, 1e3, default=100.0)
-    fe.startingTemperature = T0
-    fe.startingPhaseLocationGuess = Fields.castFromNumpy(np.zeros((1, nf)))
-    fe.minPossibleTemperature = [0.0, False]
-    fe.maxPossibleTemperature = [np.inf, False]
+    if obj is not None:
+        # an object built by the real constructor (its initial range limits are the constructor's)
+        fe = obj(T0)
+    else:
+        fe = bare(FE.FreeEnergy)
+        fe.startingTemperature = T0
+        fe.startingPhaseLocationGuess = Fields.castFromNumpy(np.zeros((1, nf)))
+        fe.minPossibleTemperature = [0.0, False]
+        fe.maxPossibleTemperature = [np.inf, False]
     hess_log = []   # (T, y tuple, H entries)
 
     def fresh_point(tag):
@@ -223,6 +227,43 @@ def h_trace(h, nf, paranoid, maxsteps=2):
     h.prove("integrator tolerances: rtol as requested, max_step = dT", Cond(b=kw["rtol"] == 1e-6 and _same(kw["max_step"], dT)))
 
 
+def h_two_phases(h):
+    """two phases of one model are two FreeEnergy objects built by the real constructor: tracing one
+    of them (range cut short or not) leaves the other's range limits and end flags at their
+    constructor values, and an object constructed afterwards starts from those values as well"""
+    pot = types.SimpleNamespace(fieldCount=1)
+    guess = Fields.castFromNumpy(np.zeros((1, 1)))
+    other = FE.FreeEnergy(pot, 95.0, guess)
+    fe, T0, hess_log, steps, table = make_free_energy(
+        h, 1, False, 1, obj=lambda T0: FE.FreeEnergy(pot, T0, guess))
+    own = (fe.minPossibleTemperature is not other.minPossibleTemperature
+           and fe.maxPossibleTemperature is not other.maxPossibleTemperature)
+    h.prove("each phase object owns its range limits (no list shared between two objects)", Cond(b=own))
+    if not own:
+        return  # tracing would write through the shared list into process-wide state
+    h.prove("constructor: limits start at [0, False] and [inf, False]", Cond(
+        b=list(fe.minPossibleTemperature) == [0.0, False] and list(fe.maxPossibleTemperature) == [np.inf, False]
+        and list(other.minPossibleTemperature) == [0.0, False] and list(other.maxPossibleTemperature) == [np.inf, False]))
+    TMin = h.real("TMin", 0.5, 1e3, default=90.0)
+    TMax = h.real("TMax", 0.5, 1e3, default=110.0)
+    h.assume(AND(lt(TMin, T0), lt(T0, TMax)))
+    dT = h.real("dT", 1e-3, 10.0, default=1.0)
+    try:
+        fe.tracePhase(TMin, TMax, dT, rTol=1e-6, spinodal=True, paranoid=False)
+    except AssertionError:
+        return
+    except RuntimeError as ex:
+        if "Failed to trace phase" in str(ex):
+            return
+        raise
+    h.prove("the traced phase got finite limits", Cond(b=len(table.get("T", [])) >= 1))
+    late = FE.FreeEnergy(pot, 97.0, guess)
+    for name, o in (("the other phase", other), ("a phase constructed afterwards", late)):
+        h.prove(f"{name}: limits and end flags untouched by tracing this one", Cond(
+            b=(not isinstance(o.minPossibleTemperature[0], Sym)) and (not isinstance(o.maxPossibleTemperature[0], Sym))
+            and list(o.minPossibleTemperature) == [0.0, False] and list(o.maxPossibleTemperature) == [np.inf, False]))
+
+
 def _same(a, b):
     if isinstance(a, Sym) and isinstance(b, Sym):
         return a.t.eq(b.t)
@@ -249,7 +290,7 @@ def h_tc_tracing(h, paranoid):
     """findCriticalTemperature traces untraced phases over the coexistence range with the spinodal
     stop ON and the requested re-minimisation setting"""
     h.patch(TH, float=npx.symfloat, np=npx.NP())
-    th = TH.Thermodynamics.__new__(TH.Thermodynamics)
+    th = bare(TH.Thermodynamics)
     calls = []
 
     class FEs:
@@ -292,7 +333,7 @@ class _Stop(Exception):
 
 def h_tc(h):
     h.patch(TH, float=npx.symfloat, np=npx.NP())
-    th = TH.Thermodynamics.__new__(TH.Thermodynamics)
+    th = bare(TH.Thermodynamics)
     F = h.ufun("dF", lambda T: 0.01 * (T - 100.0))     # F_low - F_high
     rng = {}
     for k, d in (("H", (80.0, 120.0)), ("L", (70.0, 115.0))):
@@ -340,6 +381,9 @@ HARNESSES = [
                [dict(nf=nf, paranoid=p, maxsteps=1) for nf in (1, 2) for p in (True, False)] +
                [dict(nf=2, paranoid=True, maxsteps=2)], max_paths=30000, timeout_s=30,
                encodes=[FE.FreeEnergy.tracePhase], random_validation=0, concrete_alarms=False, feas_timeout_ms=300),
+    HarnessDef("two-phases-independent", h_two_phases, [dict()], max_paths=3000, timeout_s=30,
+               encodes=[FE.FreeEnergy.__init__, FE.FreeEnergy.tracePhase], random_validation=0, concrete_alarms=False,
+               feas_timeout_ms=300),
     HarnessDef("critical-temperature-tracing", h_tc_tracing, [dict(paranoid=True), dict(paranoid=False)], max_paths=50,
                timeout_s=30, encodes=[TH.Thermodynamics.findCriticalTemperature], random_validation=1, concrete_alarms=False),
     HarnessDef("critical-temperature", h_tc, [dict()], max_paths=1500, timeout_s=30,
